@@ -4,6 +4,8 @@
 //! Program modes print one JSON object per input text:
 //!   {"id","origin","bytes","ntok","ncom","classes":[..],"distinct_outputs":k,"configs":n,"fails":[{"w","ind","kind","detail"}],"src"?}
 //!   or {"id","origin","skip":"parse-errors"} when the input itself is not a syntactically valid program.
+//! plus `pos_all` / `pos_lost`: comments per position key `<preceding token kind>@<owning CST node>` and how many were lost;
+//! `gaps-*` modes (one comment per token gap x 4 kinds, 4 configurations) print failing variants and one summary row per base text.
 //! kinds: fmt-error | fmt-panic | parse-error | ast-changed | comment-lost | not-idempotent | judge-panic
 //! `docs` mode prints `width \t tree \t hex(rendered bytes)` per case (tree syntax: see `dump`).
 use mimium_lang::compiler::parser::{TokenKind, parse_program, parse_to_expr, tokenize};
@@ -66,40 +68,83 @@ pub struct Parsed {
     pub prog: String, // Debug dump of the `Program` (finer: return types, defaults, visibility), spans stripped
     pub comments: Vec<String>,
     pub comment_ctx: Vec<(String, String)>, // (previous, next) significant token kind around each comment
+    pub comment_pos: Vec<String>, // position key of each comment: prevKind@ownerNode>nextKind@ownerNode|L or B|own or same line|index in gap/comments in gap (kinds)
     pub ntok: usize,
     pub kinds: Vec<TokenKind>,
 }
 
 fn parse_all(src: &str, path: &Option<PathBuf>) -> Parsed {
     let toks = tokenize(src);
+    // owner node kind of every token (innermost CST node that has the token as a direct child)
+    let owners: std::collections::HashMap<usize, String> = {
+        use mimium_lang::compiler::parser::green::GreenNode;
+        use mimium_lang::compiler::parser::{parse_cst, preparse};
+        let pre = preparse(&toks);
+        let (root, arena, _t, _e) = parse_cst(toks.clone(), &pre);
+        let mut m = std::collections::HashMap::new();
+        let mut stack = vec![root];
+        while let Some(id) = stack.pop() {
+            if let GreenNode::Internal { kind, children, .. } = arena.get(id) {
+                for &ch in children.iter() {
+                    match arena.get(ch) {
+                        GreenNode::Token { token_index, .. } => {
+                            m.insert(*token_index, format!("{:?}", kind));
+                        }
+                        _ => stack.push(ch),
+                    }
+                }
+            }
+        }
+        m
+    };
     let mut comments = vec![];
     let mut comment_ctx: Vec<(String, String)> = vec![];
+    let mut comment_pos: Vec<String> = vec![];
     let mut kinds = vec![];
     let mut prev = "Start".to_string();
+    let mut prev_full = "Start@-".to_string();
     let mut pending: Vec<usize> = vec![];
-    for t in &toks {
+    // per pending comment: (kind letter, own-line flag)
+    let mut gap: Vec<(char, bool)> = vec![];
+    let mut lb_seen = false;
+    let flush = |pending: &mut Vec<usize>, gap: &mut Vec<(char, bool)>, comment_ctx: &mut Vec<(String, String)>, comment_pos: &mut Vec<String>, prev_full: &str, next: &str, next_full: &str| {
+        let sig: String = gap.iter().map(|g| g.0).collect();
+        for (j, i) in pending.drain(..).enumerate() {
+            comment_ctx[i].1 = next.to_string();
+            comment_pos[i] = format!("{}>{}|{}|{}|{}/{}", prev_full, next_full, gap[j].0, if gap[j].1 { "own" } else { "same" }, j + 1, sig);
+        }
+        gap.clear();
+    };
+    for (ti, t) in toks.iter().enumerate() {
         match t.kind {
             TokenKind::SingleLineComment | TokenKind::MultiLineComment => {
                 comments.push(t.text(src).trim_end().to_string());
                 comment_ctx.push((prev.clone(), "End".to_string()));
+                comment_pos.push(String::new());
                 pending.push(comment_ctx.len() - 1);
+                gap.push((if t.kind == TokenKind::SingleLineComment { 'L' } else { 'B' }, lb_seen));
             }
-            TokenKind::Whitespace | TokenKind::LineBreak | TokenKind::Eof => {}
+            TokenKind::LineBreak => lb_seen = true,
+            TokenKind::Whitespace => {}
+            TokenKind::Eof => {}
             k => {
                 kinds.push(k);
-                prev = format!("{:?}", k);
-                for i in pending.drain(..) {
-                    comment_ctx[i].1 = prev.clone();
-                }
+                let nk = format!("{:?}", k);
+                let nfull = format!("{:?}@{}", k, owners.get(&ti).map(|s| s.as_str()).unwrap_or("-"));
+                flush(&mut pending, &mut gap, &mut comment_ctx, &mut comment_pos, &prev_full, &nk, &nfull);
+                prev = nk;
+                prev_full = nfull;
+                lb_seen = false;
             }
         }
     }
+    flush(&mut pending, &mut gap, &mut comment_ctx, &mut comment_pos, &prev_full, "End", "End@-");
     let (prog, errs) = parse_program(src, path.clone().unwrap_or_default());
     let nerr = errs.len();
     let progd = strip_spans(&format!("{:?}", prog));
     let (e, _mi, _errs2) = parse_to_expr(src, path.clone());
     let ast = strip_spans(&e.to_expr().simple_print());
-    Parsed { nerr, ast, prog: progd, comments, comment_ctx, ntok: kinds.len(), kinds }
+    Parsed { nerr, ast, prog: progd, comments, comment_ctx, comment_pos, ntok: kinds.len(), kinds }
 }
 
 fn first_diff(a: &str, b: &str) -> String {
@@ -252,18 +297,26 @@ fn classes(p: &Parsed, src: &str) -> Vec<&'static str> {
 }
 
 fn judge(id: &str, origin: &str, src: &str, path: &Option<PathBuf>, configs: &[(usize, usize)], out: &mut impl Write) {
+    let j = judge_value(id, origin, src, path, configs);
+    writeln!(out, "{}", j).unwrap();
+}
+
+/// reduced position key of a comment: kind of the preceding significant token @ kind of the CST node that owns it
+fn pos_key(full: &str) -> String {
+    full.split('>').next().unwrap_or("?").to_string()
+}
+
+fn judge_value(id: &str, origin: &str, src: &str, path: &Option<PathBuf>, configs: &[(usize, usize)]) -> serde_json::Value {
     let src_owned = src.to_string();
     let p0 = path.clone();
     let base = match std::panic::catch_unwind(move || parse_all(&src_owned, &p0)) {
         Ok(b) => b,
         Err(_) => {
-            writeln!(out, "{}", serde_json::json!({"id": id, "origin": origin, "skip": "parser-panic"})).unwrap();
-            return;
+            return serde_json::json!({"id": id, "origin": origin, "skip": "parser-panic"});
         }
     };
     if base.nerr > 0 {
-        writeln!(out, "{}", serde_json::json!({"id": id, "origin": origin, "skip": "parse-errors"})).unwrap();
-        return;
+        return serde_json::json!({"id": id, "origin": origin, "skip": "parse-errors"});
     }
     let mut fails = vec![];
     let mut outs: Vec<String> = vec![];
@@ -304,7 +357,7 @@ fn judge(id: &str, origin: &str, src: &str, path: &Option<PathBuf>, configs: &[(
             let ctx: Vec<String> = lost.iter().map(|&i| format!("{}>{}", base.comment_ctx[i].0, base.comment_ctx[i].1)).collect();
             fails.push(serde_json::json!({"w": w, "ind": ind, "kind": "comment-lost",
                 "detail": format!("{} of {} comments lost, first: #{} {:?}", lost.len(), base.comments.len(), lost[0], base.comments[lost[0]]),
-                "lost": lost, "lost_ctx": ctx}));
+                "lost": lost, "lost_ctx": ctx, "lost_pos": lost.iter().map(|&i| base.comment_pos[i].clone()).collect::<Vec<_>>()}));
         } else if po.comments.len() > base.comments.len() {
             dup_comments += 1;
         }
@@ -341,7 +394,26 @@ fn judge(id: &str, origin: &str, src: &str, path: &Option<PathBuf>, configs: &[(
             j["path"] = serde_json::Value::String(p.to_string_lossy().to_string());
         }
     }
-    writeln!(out, "{}", j).unwrap();
+    // tallies per comment position (reduced key): how many comments sit there, how many were lost at >= 1 configuration
+    let mut pos_all: std::collections::BTreeMap<String, usize> = Default::default();
+    for k in &base.comment_pos {
+        *pos_all.entry(pos_key(k)).or_default() += 1;
+    }
+    let mut lost_any: std::collections::BTreeSet<usize> = Default::default();
+    for f in j["fails"].as_array().unwrap() {
+        if let Some(l) = f["lost"].as_array() {
+            for i in l {
+                lost_any.insert(i.as_u64().unwrap() as usize);
+            }
+        }
+    }
+    let mut pos_lost: std::collections::BTreeMap<String, usize> = Default::default();
+    for i in lost_any {
+        *pos_lost.entry(pos_key(&base.comment_pos[i])).or_default() += 1;
+    }
+    j["pos_all"] = serde_json::json!(pos_all);
+    j["pos_lost"] = serde_json::json!(pos_lost);
+    j
 }
 
 fn all_configs() -> Vec<(usize, usize)> {
@@ -359,9 +431,10 @@ fn all_configs() -> Vec<(usize, usize)> {
 // layout / comment mutations of a valid source text (token-gap edits; the result is judged only if it still
 // parses without errors). Steered away from the open findings: no comment is placed directly after a `}`.
 
-/// tokens whose attached comments the printer is known to drop (finding F14): `,` `{` `}`
+/// tokens whose attached comments the printer is known to drop (finding F14): `,` `}` (and the `{` of a
+/// `use m::{..}` list, excluded separately by `in_use_list`)
 fn drops_trivia(k: Option<TokenKind>) -> bool {
-    matches!(k, Some(TokenKind::Comma) | Some(TokenKind::BlockBegin) | Some(TokenKind::BlockEnd))
+    matches!(k, Some(TokenKind::Comma) | Some(TokenKind::BlockEnd))
 }
 
 fn is_trivia_kind(k: TokenKind) -> bool {
@@ -396,7 +469,8 @@ pub fn mutate(src: &str, r: &mut Rng, uniq: &mut usize) -> (String, Vec<&'static
         for (i, (k, _)) in parts.iter().enumerate() {
             prev_sig[i] = ps;
             if !is_trivia_kind(*k) {
-                ps = Some(*k);
+                // the `{` of `use m::{a, b}` drops its trivia like a comma does (finding F14)
+                ps = if *k == TokenKind::BlockBegin && ps == Some(TokenKind::DoubleColon) { Some(TokenKind::Comma) } else { Some(*k) };
             }
         }
         prev_sig[parts.len()] = ps;
@@ -569,6 +643,119 @@ pub fn dense_comments(src: &str, skip: &dyn Fn(TokenKind) -> bool, line_comments
         }
     }
     out
+}
+
+
+// ---------------------------------------------------------------------------------------------
+// `gaps` mode: systematic comment insertion. For a valid text outside the finding classes: ONE comment per
+// token gap x {block, line} x {same line, own line}, each variant judged at a few configurations.
+// Own-line variants and same-line `//` use the gap's existing line break when there is one; a same-line `//` in a
+// gap without line break adds one (the variant is then a different, possibly invalid, program: invalid ones are skipped).
+
+const GAP_CONFIGS: [(usize, usize); 4] = [(1, 2), (20, 4), (80, 4), (1_000_000, 2)];
+
+/// (byte offset directly after the significant token, byte offset after the first line break of the gap if any)
+fn gap_sites(src: &str) -> Vec<(usize, Option<usize>)> {
+    let toks = tokenize(src);
+    let mut v = vec![];
+    let n = toks.len();
+    for (i, t) in toks.iter().enumerate() {
+        if is_trivia_kind(t.kind) || t.kind == TokenKind::Eof {
+            continue;
+        }
+        let mut lb = None;
+        let mut has_next = false;
+        for u in &toks[i + 1..n] {
+            if u.kind == TokenKind::Eof {
+                break;
+            }
+            if !is_trivia_kind(u.kind) {
+                has_next = true;
+                break;
+            }
+            if u.kind == TokenKind::LineBreak && u.text(src) != ";" && lb.is_none() {
+                lb = Some(u.start + u.length);
+            }
+        }
+        let _ = has_next;
+        v.push((t.start + t.length, lb));
+    }
+    v
+}
+
+fn gap_variants(src: &str, site: (usize, Option<usize>), k: usize) -> Vec<(&'static str, String)> {
+    let (after, lb) = site;
+    let mut v = vec![];
+    let ins = |at: usize, what: &str| -> String { format!("{}{}{}", &src[..at], what, &src[at..]) };
+    v.push(("B-same", ins(after, &format!(" /* q{k} */ "))));
+    match lb {
+        Some(l) => {
+            v.push(("L-same", ins(after, &format!(" // q{k}"))));
+            v.push(("B-own", ins(l, &format!("/* q{k} */\n"))));
+            v.push(("L-own", ins(l, &format!("// q{k}\n"))));
+        }
+        None => {
+            v.push(("L-same+nl", ins(after, &format!(" // q{k}\n"))));
+        }
+    }
+    v
+}
+
+fn run_gaps(id: &str, src: &str, path: &Option<PathBuf>, max_gaps: usize, r: &mut Rng, out: &mut impl Write) {
+    let s0 = src.to_string();
+    let p0 = path.clone();
+    let ok = std::panic::catch_unwind(move || {
+        let b = parse_all(&s0, &p0);
+        b.nerr == 0 && classes(&b, &s0).is_empty()
+    })
+    .unwrap_or(false);
+    if !ok {
+        writeln!(out, "{}", serde_json::json!({"id": id, "origin": "gaps", "skip": "not-class-free"})).unwrap();
+        return;
+    }
+    let mut sites = gap_sites(src);
+    let total_sites = sites.len();
+    if max_gaps > 0 && sites.len() > max_gaps {
+        // random sample without replacement
+        for i in 0..max_gaps {
+            let j = i + r.below((sites.len() - i) as u64) as usize;
+            sites.swap(i, j);
+        }
+        sites.truncate(max_gaps);
+    }
+    let mut variants = 0usize;
+    let mut invalid = 0usize;
+    let mut evals = 0usize;
+    let mut pos_all: std::collections::BTreeMap<String, usize> = Default::default();
+    let mut pos_lost: std::collections::BTreeMap<String, usize> = Default::default();
+    let mut layouts = 0usize;
+    for (k, site) in sites.iter().enumerate() {
+        for (vk, text) in gap_variants(src, *site, k) {
+            let j = judge_value(&format!("{id}@{}:{vk}", site.0), &format!("gap:{vk}"), &text, path, &GAP_CONFIGS);
+            if j.get("skip").is_some() {
+                invalid += 1;
+                continue;
+            }
+            variants += 1;
+            evals += GAP_CONFIGS.len();
+            if j["distinct_outputs"].as_u64().unwrap_or(0) >= 2 {
+                layouts += 1;
+            }
+            for (m, key) in [(&mut pos_all, "pos_all"), (&mut pos_lost, "pos_lost")] {
+                if let Some(o) = j[key].as_object() {
+                    for (kk, vv) in o {
+                        *m.entry(kk.clone()).or_default() += vv.as_u64().unwrap_or(0) as usize;
+                    }
+                }
+            }
+            if !j["fails"].as_array().map(|a| a.is_empty()).unwrap_or(true) {
+                writeln!(out, "{}", j).unwrap();
+            }
+        }
+    }
+    writeln!(out, "{}", serde_json::json!({"id": id, "origin": "gaps-summary", "sites": total_sites, "sites_probed": sites.len(),
+        "variants": variants, "variants_invalid": invalid, "evaluations": evals, "variants_two_layouts": layouts,
+        "bytes": src.len(), "pos_all": pos_all, "pos_lost": pos_lost})).unwrap();
 }
 
 // ---------------------------------------------------------------------------------------------
@@ -955,6 +1142,43 @@ mod progs {
             }
             s
         }
+        /// a small program that exercises every block-bearing construct: function body, nested block, if/else arms
+        /// with braces, lambda body with braces, record, call, tuple, array
+        pub fn small_program(&mut self) -> String {
+            let mut s = String::new();
+            let shapes = 1 + self.r.below(3) as usize;
+            for i in 0..shapes {
+                match self.r.below(6) {
+                    0 => {
+                        let c = self.expr(1, 2);
+                        let t = self.expr(1, 4);
+                        let e = self.expr(1, 4);
+                        s.push_str(&format!("fn g{i}(a, b){{\n  if ({c}) {{\n    {t}\n  }} else {{\n    {e}\n  }}\n}}\n"));
+                    }
+                    1 => {
+                        let b = self.expr(1, 2);
+                        s.push_str(&format!("let h{i} = |x, y| {{\n  let t1 = {b}\n  t1 + x\n}}\n"));
+                    }
+                    2 => {
+                        let b = self.expr(1, 4);
+                        s.push_str(&format!("fn k{i}(x){{\n  let y = {{\n    let a = x * 2.0\n    {b}\n  }}\n  y |> foo\n}}\n"));
+                    }
+                    3 => {
+                        let a = self.expr(1, 2);
+                        s.push_str(&format!("fn m{i}(x) {{ {a} }}\n"));
+                    }
+                    4 => {
+                        let a = self.expr(2, 0);
+                        s.push_str(&format!("let v{i} = {a}\n"));
+                    }
+                    _ => {
+                        let body = self.stmts(1, 2);
+                        s.push_str(&format!("fn f{i}(a){{\n{body}}}\n"));
+                    }
+                }
+            }
+            s
+        }
         pub fn program(&mut self) -> String {
             let mut s = String::new();
             let n = 1 + self.r.below(4) as usize;
@@ -1234,6 +1458,54 @@ fn main() {
                 judge(&format!("gen/{seed}/{i}"), "gen", &src, &None, &cfgs, &mut out);
             }
         }
+        Some("gaps-files") => {
+            let root = PathBuf::from(&args[1]);
+            let k: usize = args[2].parse().unwrap();
+            let n: usize = args[3].parse().unwrap();
+            let seed: u64 = args[4].parse().unwrap();
+            let maxg: usize = args[5].parse().unwrap();
+            let mut files = vec![];
+            walk(&root, &mut files);
+            for (i, f) in files.iter().enumerate() {
+                if i % n != k {
+                    continue;
+                }
+                let Ok(src) = std::fs::read_to_string(f) else { continue };
+                let rel = f.strip_prefix(&root).unwrap_or(f).to_string_lossy().to_string();
+                let mut r = Rng::new(seed.wrapping_mul(7_000_003).wrapping_add(i as u64));
+                run_gaps(&rel, &src, &Some(f.clone()), maxg, &mut r, &mut out);
+            }
+        }
+        Some("gaps-gen") => {
+            // small generated programs, every gap
+            let seed: u64 = args[1].parse().unwrap();
+            let n: usize = args[2].parse().unwrap();
+            let mut r = Rng::new(seed ^ 0x6a09e667);
+            for i in 0..n {
+                let src = {
+                    let mut g = progs::G { r: &mut r, uniq: 0, comments: false };
+                    g.small_program()
+                };
+                let mut r2 = Rng::new(seed.wrapping_add(i as u64));
+                run_gaps(&format!("gapgen/{seed}/{i}"), &src, &None, 0, &mut r2, &mut out);
+            }
+        }
+        Some("gaps-texts") => {
+            let seed: u64 = args[1].parse().unwrap();
+            let maxg: usize = args[2].parse().unwrap();
+            let stdin = std::io::stdin();
+            for (i, line) in stdin.lock().lines().enumerate() {
+                let line = line.unwrap();
+                if line.trim().is_empty() {
+                    continue;
+                }
+                let v: serde_json::Value = serde_json::from_str(&line).unwrap();
+                let id = v["id"].as_str().unwrap_or("text").to_string();
+                let src = v["src"].as_str().unwrap().to_string();
+                let mut r = Rng::new(seed.wrapping_add(i as u64));
+                run_gaps(&id, &src, &None, maxg, &mut r, &mut out);
+            }
+        }
         Some("nlrule") => {
             let seed: u64 = args[1].parse().unwrap();
             let n: usize = args[2].parse().unwrap();
@@ -1297,7 +1569,7 @@ fn main() {
             }
         }
         _ => {
-            eprintln!("usage: c14 files <root> <k> <n> <seed> <nmut> | texts | gen <seed> <n> | docs <seed> <n>");
+            eprintln!("usage: c14 files <root> <k> <n> <seed> <nmut> | texts | gen <seed> <n> | gaps-gen <seed> <n> | gaps-files <root> <k> <n> <seed> <maxgaps> | gaps-texts <seed> <maxgaps> | docs <seed> <n> | nlrule <seed> <n> | show <w> <ind>");
             std::process::exit(2);
         }
     }
